@@ -1,2 +1,3 @@
 """Import every contract module (registers them in pyvc.contract.REG)."""
 from contracts import sort_enforcement, chunk, general  # noqa
+from contracts import plugin  # noqa
